@@ -23,6 +23,14 @@ it builds spec-encoded bytes and echoes the xids it read from the bytes the cont
  (g) overlapping handshakes of two connections (datapath ids 1,2 and 1,1): every merge order of the two
      scripts, an asynchronous message at every position of each (also BEFORE the features reply), and
      connection 0 closed after every prefix while connection 1 goes on (state leaking between connections).
+ (h) application listeners that only RETURN something to revent: every return value raiseEvent interprets
+     (EventHalt, EventHaltAndRemove, True, (), event.halt = True, EventContinue, EventRemove, False) x every event
+     raised while a connection comes up / carries port-status / goes down, on the nexus and on the Connection
+     (a halted ConnectionUp / FeaturesReceived / ConnectionHandshakeComplete must not swallow the early port-status);
+ (i) state that exists BEFORE the connection: the controller-wide xid counter positioned so that the n-th xid
+     drawn is the last one below 2**31 (wrap-around) / 2**24 / 2**16 / 2**8, for every n a handshake (or two)
+     can draw; every combination of the nexus / handshake options that decide which requests the handshake sends;
+     the switch choosing 0 / 0xffffffff / the pending request's xid for the messages it originates.
 In every part an application listener reads the registry DURING the delivery of every life-cycle event.
 
 Oracle: mc.refs.c09_lifecycle.Ref, evaluated after every operation (events on the nexus and on the
@@ -53,11 +61,21 @@ def pox_site (tb):
 
 class World (object):
   """One execution: real controller objects + scripted peers + reference model."""
-  def __init__ (self, dpids, spec=None):
+  def __init__ (self, dpids, spec=None, ret=None, opts=None):
     from mc.env import ControllerStack, VClock
     self.st = ControllerStack(clock=VClock())
     self.of01 = self.st.of01
     self.of01.Connection._aborted_connections = 0
+    # parts (h)/(i): a listener that only RETURNS something to revent; controller options
+    self.ret = tuple(ret) if ret else None      # None | (where, event, form)
+    self.halted = set()                 # (where, event, slot, port-status ident | None) the listener halted
+    self.ret_calls = 0
+    self.opts = tuple(opts) if opts else None   # None | (miss_send_len, clear_flows_on_connect, request_description, switch xid mode)
+    self._saved_reqdesc = self.of01.HandshakeOpenFlowHandlers.request_description
+    if self.opts is not None:
+      self.st.nexus.miss_send_len = self.opts[0]
+      self.st.nexus.clear_flows_on_connect = self.opts[1]
+      self.of01.HandshakeOpenFlowHandlers.request_description = self.opts[2]
     self.dpids = list(dpids)            # dpid of connection slot i
     self.ref = L.Ref()
     self.peers = {}
@@ -88,10 +106,33 @@ class World (object):
     for name, ev in (("ConnectionUp", ofm.ConnectionUp), ("ConnectionDown", ofm.ConnectionDown), ("PortStatus", ofm.PortStatus)):
       # after the recorder (same source, lower priority): the logs keep the order in which events are RAISED
       self.st.nexus.addListener(ev, (lambda e, name=name: self.on_event(name, "nexus", e)), priority=-1)
+    if self.ret and self.ret[0] == "nexus":
+      # after the recorder AND after the registry-reading listener: both still see every event that is raised
+      self.st.nexus.addListener(getattr(ofm, self.ret[1]), self._ret_listener(self.ret[1], "nexus"), priority=-2)
 
   def dispose (self):
+    self.of01.HandshakeOpenFlowHandlers.request_description = self._saved_reqdesc
     try: self.st.core.removeListener(self.st.nexus._handle_DownEvent)
     except Exception: pass
+
+  def _ret_listener (self, name, where):
+    """An application listener that does nothing but hand one of the return values revent understands back
+    to raiseEvent (or sets event.halt).  Which events it halted is remembered: pox by design does not
+    re-raise a ConnectionUp / PortStatus halted on the nexus on the Connection object."""
+    import pox.lib.revent as R
+    form = self.ret[2]
+    def h (e):
+      slot = self._slot(e.connection)
+      self.ret_calls += 1
+      if form in RET_HALTS:
+        self.halted.add((where, name, slot, self._ps_ident(e) if name == "PortStatus" else None))
+      self.lines.append("  [listener] %s for connection %r on the %s: application listener %s" % (name, slot, where, RET_FORMS[form]))
+      if form == "set-halt":
+        e.halt = True
+        return None
+      return {"EventHalt": R.EventHalt, "EventHaltAndRemove": R.EventHaltAndRemove, "True": True, "empty-tuple": (),
+              "EventContinue": R.EventContinue, "EventRemove": R.EventRemove, "False": False}[form]
+    return h
 
   def fail (self, clause, what):
     if clause.endswith(":connection"):
@@ -118,6 +159,8 @@ class World (object):
     for name, ev in (("ConnectionUp", ofm.ConnectionUp), ("ConnectionDown", ofm.ConnectionDown), ("PortStatus", ofm.PortStatus)):
       con.addListener(ev, (lambda e, name=name, i=i: self.con_events.append((name, i, e))))
       con.addListener(ev, (lambda e, name=name: self.on_event(name, "connection", e)), priority=-1)
+    if self.ret and self.ret[0] == "connection":
+      con.addListener(getattr(ofm, self.ret[1]), self._ret_listener(self.ret[1], "connection"), priority=-2)
 
   @staticmethod
   def _ps_ident (e):
@@ -168,6 +211,7 @@ class World (object):
     self.cidx[i] = k; self.slot_of[k] = i
     self.nlog[i] = []; self.clog[i] = []
     self.peers[i] = L.Peer(self.dpids[i])
+    if self.opts is not None and len(self.opts) > 3: self.peers[i].xid_mode = self.opts[3]
     self.ref.open(i, self.dpids[i])
     self._listen(i, self.st.cons[k])
     tx = self.absorb(i)
@@ -391,6 +435,10 @@ class World (object):
   # ---- oracle -------------------------------------------------------------------
   def check_events (self, i, where, log):
     c = self.ref.cons[i]
+    # events an application listener halted on the nexus are (by pox's design) not raised again on the Connection
+    # object; the statement does not say on which source, so the Connection's own log is not asked for them
+    up_halted = where == "connection" and ("nexus", "ConnectionUp", i, None) in self.halted
+    ps_halted = set(h[3] for h in self.halted if h[:3] == ("nexus", "PortStatus", i)) if where == "connection" else ()
     ups = [n for n, x in enumerate(log) if x[0] == "up"]
     downs = [n for n, x in enumerate(log) if x[0] == "down"]
     pss = [(n, x[1]) for n, x in enumerate(log) if x[0] == "ps"]
@@ -400,11 +448,13 @@ class World (object):
                         "ConnectionUp raised on the %s for connection %d whose handshake has only reached stage '%s'" % (where, i, c.stage))
     else:
       if len(ups) > 1: self.fail("up:raised-twice:%s" % where, "ConnectionUp raised %d times on the %s for connection %d" % (len(ups), where, i))
-      if c.completed_live and not ups and not (where == "connection" and getattr(c, "dropped_during_nexus_up", False)):
+      if c.completed_live and not ups and not up_halted and not (where == "connection" and getattr(c, "dropped_during_nexus_up", False)):
         self.fail("up:missing:%s" % where, "connection %d received features reply and barrier reply but ConnectionUp was not raised on the %s" % (i, where))
     # port status
     if pss and not ups and where == "connection" and getattr(c, "dropped_during_nexus_up", False):
       pass      # the Connection object never announced the connection a nexus listener dropped: nothing is said about its later messages
+    elif pss and not ups and up_halted:
+      pass      # ConnectionUp was halted on the nexus: the Connection object passes port-status on without having announced itself
     elif pss and (not ups or pss[0][0] < ups[0]):
       self.fail("portstatus:before-up:%s" % where, "PortStatus %r delivered on the %s before ConnectionUp of connection %d" % (pss[0][1], where, i))
     ids = [x for n, x in pss]
@@ -413,6 +463,7 @@ class World (object):
     if ups:
       got = [x for x in ids if x not in c.pre and x not in c.unconstrained]
       want = self.ref.required_ps(i)
+      if ps_halted: want = [x for x in want if x in got or x not in ps_halted]
       if got != want:
         here = set(c.pre) | set(c.deferred) | set(c.post) | c.unconstrained
         foreign = [x for x in got if x not in here and any(x in (set(o.pre) | set(o.deferred) | set(o.post) | o.unconstrained)
@@ -618,10 +669,10 @@ def chunkings (asyncs, last):
   return out
 
 
-def run_script (chunks, loss, dpid=1):
+def run_script (chunks, loss, dpid=1, ret=None, opts=None):
   """Execute one script on a fresh world.  loss: None | ('close', p) close after p messages |
   ('epipe', c, drain) first send during chunk c fails, then (optionally the rest, then) close."""
-  w = World([dpid])
+  w = World([dpid], ret=ret, opts=opts)
   outs = []
   stalled = None
   try:
@@ -703,8 +754,8 @@ def c_script (i):
 
 
 class CWorld (object):
-  def __init__ (self, dpids, spec=None):
-    self.w = World(dpids, spec)
+  def __init__ (self, dpids, spec=None, ret=None, opts=None):
+    self.w = World(dpids, spec, ret=ret, opts=opts)
     self.n = len(dpids)
     self.pos = [0] * self.n
 
@@ -1074,8 +1125,8 @@ def f_histories (thorough):
   return one, two
 
 
-def run_listener_case (spec, ops):
-  cw = CWorld((1, 1), tuple(spec))
+def run_listener_case (spec, ops, ret=None, opts=None):
+  cw = CWorld((1, 1), tuple(spec) if spec else None, ret=ret, opts=opts)
   outs = []; bad = []
   try:
     for op in ops:
@@ -1222,6 +1273,153 @@ def _g_worker (item):
   return rep
 
 
+# =============================================================================
+# part (h): application listeners that RETURN something to revent (halt / remove / continue)
+# =============================================================================
+# every return value raiseEvent() interprets, plus setting event.halt; None is what every other part returns
+RET_FORMS = {"EventHalt": "returns EventHalt", "EventHaltAndRemove": "returns EventHaltAndRemove", "True": "returns True (halt)",
+             "empty-tuple": "returns () (halt)", "set-halt": "sets event.halt = True", "EventContinue": "returns EventContinue",
+             "EventRemove": "returns EventRemove", "False": "returns False (remove listener)"}
+RET_ORDER = ("EventHalt", "EventHaltAndRemove", "True", "empty-tuple", "set-halt", "EventContinue", "EventRemove", "False")
+RET_HALTS = ("EventHalt", "EventHaltAndRemove", "True", "empty-tuple", "set-halt")
+RET_EVENTS = (("nexus", "ConnectionHandshakeComplete"), ("nexus", "ConnectionUp"), ("nexus", "FeaturesReceived"), ("nexus", "PortStatus"),
+              ("nexus", "ConnectionDown"), ("connection", "ConnectionUp"), ("connection", "FeaturesReceived"), ("connection", "PortStatus"),
+              ("connection", "ConnectionDown"))
+
+def gen_rets ():
+  return [(where, ev, form) for where, ev in RET_EVENTS for form in RET_ORDER]
+
+
+def h_scripts (thorough):
+  """(asyncs, last, mode): the part (a) scripts restricted to port-status messages (0..2 of them deferred,
+  before the features reply, after connection-up), every segmentation; each is followed by close."""
+  kinds, kmax = (("ps-add", "ps-mod", "echo"), 3) if thorough else (("ps-add",), 2)
+  out = []
+  for asyncs in gen_scripts(kinds, kmax):
+    for last in ("barrier", "barrier-unsup"):
+      for mode, chunks in chunkings(asyncs, last): out.append((asyncs, last, mode))
+  return out
+
+
+def run_h_case (case):
+  """case: ('script', ret, asyncs, last, mode) | ('ops', ret, ops)"""
+  if case[0] == "script":
+    kind, ret, asyncs, last, mode = case
+    asyncs = tuple((s, k) for s, k in asyncs)
+    chunks = dict(chunkings(asyncs, last))[mode]
+    w, outs = run_script(chunks, ("close", sum(len(c) for c in chunks)), ret=tuple(ret))
+    return w, outs, list(w.bad)
+  kind, ret, ops = case
+  return run_listener_case(None, [tuple(o) for o in ops], ret=tuple(ret))
+
+
+def _h_worker (item):
+  from mc.env import boot
+  boot()
+  rep = Report(PID, "model_checking")
+  for case in item:
+    w, outs, bad = run_h_case(case)
+    rep.evaluations += 1
+    rep.transitions += w.transitions
+    rep.outcome(("returns", case[1], tuple(outs), w.ret_calls, len(w.halted)))
+    rep.extra["listener_returns"] = rep.extra.get("listener_returns", 0) + w.ret_calls
+    rep.extra["events_halted"] = rep.extra.get("events_halted", 0) + len(w.halted)
+    data = dict(part="h", case=_jsonable(case))
+    for k, what in bad: rep.violation(k, what, data)
+    if not bad and w.halted and rep.evaluations % 499 == 5: rep.sample(dict(case=data, trace=w.lines))
+  return rep
+
+
+def _jsonable (x):
+  if isinstance(x, (tuple, list)): return [_jsonable(y) for y in x]
+  return x
+
+
+# =============================================================================
+# part (i): state that survives from BEFORE the connection: the controller-wide xid counter at its
+# numeric boundaries, and the nexus / handshake options that decide which requests the handshake sends
+# =============================================================================
+XID_BOUNDARIES = (1 << 31, 1 << 16, 1 << 8, 1 << 24)      # 2**31 - 1 is MAX_XID: the counter wraps there
+
+class XidCounter (object):
+  """The module-level xid counter of libopenflow_01 (shared by every message of every connection) put into
+  the state it has after `start - 1` draws, with pox's own constructor; restored afterwards."""
+  def __init__ (self, start): self.start = start
+  def __enter__ (self):
+    import pox.openflow.libopenflow_01 as of
+    self.of = of; self.saved = of.generate_xid
+    if self.start is not None: of.generate_xid = of.xid_generator(self.start)
+  def __exit__ (self, *a):
+    self.of.generate_xid = self.saved
+
+
+OPTS_DEFAULT = (128, True, True, "default")
+SWITCH_XID_MODES = ("zero", "max", "pending")
+
+def gen_opts ():
+  """(nexus.miss_send_len, nexus.clear_flows_on_connect, HandshakeOpenFlowHandlers.request_description,
+  xids of the messages the switch originates)"""
+  return [(m, c, d, "default") for m in (128, None, 0) for c in (True, False) for d in (True, False)] + \
+         [OPTS_DEFAULT[:3] + (x,) for x in SWITCH_XID_MODES]
+
+
+def i_histories (thorough):
+  """One connection (either barrier flavour; then send-error or not; close) and two connections of one
+  datapath (every merge order of their handshake deliveries, both close orders), as in part (f)."""
+  one, two = f_histories(thorough)
+  one = [h for h in one if sum(1 for o in h if o[0] == "deliver") == 4]
+  return one, two
+
+
+def gen_i_cases (thorough):
+  """('ops', start, opts, ops) | ('script', start, opts, asyncs, last, mode)"""
+  cases = []
+  one, two = i_histories(thorough)
+  K = 32 if thorough else 16
+  kinds = ("ps-add", "ps-mod", "echo", "pktin", "err-xid", "err-code")
+  scripts = [(a, last) for a in gen_scripts(kinds, 2 if thorough else 1) for last in ("barrier", "barrier-unsup")]
+  # 1. the xid counter: the n-th xid drawn in the execution is the last one below the boundary, n = 1..K
+  for B in XID_BOUNDARIES:
+    for k in range(K):
+      start = B - 1 - k
+      for ops in one + two: cases.append(("ops", start, OPTS_DEFAULT, ops))
+      if B == XID_BOUNDARIES[0] or thorough:
+        for a, last in scripts: cases.append(("script", start, OPTS_DEFAULT, a, last, "sep"))
+  # 2. every option combination, with the default counter and with the counter wrapping at every draw of the first handshake
+  for opts in gen_opts():
+    for a, last in scripts: cases.append(("script", None, opts, a, last, "sep"))
+    for ops in one + two: cases.append(("ops", None, opts, ops))
+    for k in range(10):
+      for ops in one: cases.append(("ops", XID_BOUNDARIES[0] - 1 - k, opts, ops))
+  return cases
+
+
+def run_i_case (case):
+  kind, start, opts = case[:3]
+  with XidCounter(start):
+    if kind == "script":
+      asyncs = tuple((s, k) for s, k in case[3])
+      chunks = dict(chunkings(asyncs, case[4]))[case[5]]
+      w, outs = run_script(chunks, ("close", sum(len(c) for c in chunks)), opts=tuple(opts))
+      return w, outs, list(w.bad)
+    return run_listener_case(None, [tuple(o) for o in case[3]], opts=tuple(opts))
+
+
+def _i_worker (item):
+  from mc.env import boot
+  boot()
+  rep = Report(PID, "model_checking")
+  for case in item:
+    w, outs, bad = run_i_case(case)
+    rep.evaluations += 1
+    rep.transitions += w.transitions
+    rep.outcome(("prior-state", case[2], tuple(outs)))
+    data = dict(part="i", case=_jsonable(case))
+    for k, what in bad: rep.violation(k, what, data)
+    if not bad and rep.evaluations % 1499 == 5: rep.sample(dict(case=data, trace=w.lines))
+  return rep
+
+
 UP0 = (("open", 0), ("deliver", 0), ("deliver", 0), ("deliver", 0))
 
 
@@ -1261,6 +1459,15 @@ def run (cfg):
               "position (before hello / before the features reply / before the barrier reply / after it), every merge order of the two scripts (<=%d per pair); and "
               "connection 0 (port-status at every position) closed by the I/O loop after every prefix of its script, merged in every order with every script of "
               "connection 1; port-status serial numbers are unique per connection so a message surfacing on another connection is recognised. "
+              "(h) application listeners that only hand a value back to revent: (source, event) in %r x %r (%d behaviours; the listener runs after the "
+              "recorder and after the registry-reading listener), each under every part-(a) script with <=%d asynchronous message(s) from %r in every "
+              "segmentation followed by close (%d scripts) and under the one- and two-connection histories of (f); an event halted on the nexus is not "
+              "demanded on the Connection object. (i) prior state: libopenflow_01.generate_xid re-created with xid_generator(B-1-k) for B in %r and every "
+              "k < %d, under the full-handshake histories of (f) (one connection with either barrier flavour [send-error] close; two connections of one datapath "
+              "in every merge order) and, for B = 2**31%s, every part-(a) script with <=%d asynchronous message from all six kinds; every option combination "
+              "(nexus.miss_send_len in {128, None, 0}) x (clear_flows_on_connect) x (HandshakeOpenFlowHandlers.request_description) and the switch using xid "
+              "0 / 0xffffffff / the xid of the pending controller request for its own hello, port-status, echo-request and packet-in (%d combinations), each "
+              "under those scripts and histories with the default counter and with the counter wrapping at each of the first 10 draws. "
               "In ALL parts an application listener on the nexus and on every Connection reads the registry during the delivery of every ConnectionUp / "
               "ConnectionDown / PortStatus (no lost connection registered; the connection being announced is the one registered). "
               "distinct = (script shape, loss, "
@@ -1270,8 +1477,13 @@ def run (cfg):
                  len(gen_specs()), cfg.pick("first three deliveries (20 orders), then the remaining deliveries", "four deliveries (70 orders)"),
                  len(f_histories(not cfg.quick)[1]), World.MAX_NEST,
                  G_BOUNDS[not cfg.quick][1], list(G_BOUNDS[not cfg.quick][0]), list(G_BOUNDS[not cfg.quick][2]),
-                 cfg.pick(70, 126)))
-  rep.bound = dict(async_messages=kmax, async_kinds=list(kinds), bfs_depth=depth, connections=3, datapath_ids=2,
+                 cfg.pick(70, 126),
+                 ["%s:%s" % x for x in RET_EVENTS], list(RET_ORDER), len(gen_rets()), cfg.pick(2, 3), list(cfg.pick(("ps-add",), ("ps-add", "ps-mod", "echo"))),
+                 len(h_scripts(not cfg.quick)), ["2**31", "2**16", "2**8", "2**24"], cfg.pick(16, 32), cfg.pick("", " (thorough: every B)"), cfg.pick(1, 2),
+                 len(gen_opts())))
+  rep.bound = dict(listener_return_behaviours=len(gen_rets()), xid_counter_offsets=cfg.pick(16, 32), xid_boundaries=[1 << 31, 1 << 16, 1 << 8, 1 << 24],
+                   option_combinations=len(gen_opts()),
+                   async_messages=kmax, async_kinds=list(kinds), bfs_depth=depth, connections=3, datapath_ids=2,
                    listener_behaviours=len(gen_specs()), listener_nesting=World.MAX_NEST, listener_connections=2,
                    overlap_connections=2, overlap_async_messages=[G_BOUNDS[not cfg.quick][1], 1])
   rep.assumptions = [
@@ -1286,6 +1498,11 @@ def run (cfg):
     "(but must not announce it AFTER reporting it down)",
     "inside a listener only two registry facts are demanded: no datapath is registered to a lost connection (or to the connection being reported down), and "
     "during ConnectionUp of a live connection the datapath is registered to (and sendToDPID reaches) that connection",
+    "a listener that halts an event does so AFTER the harness's recorder saw it (a listener that hides the event from every later listener cannot be "
+    "observed); ConnectionUp / PortStatus halted on the nexus are by pox's design not raised on the Connection object, and the statement does not name "
+    "the source, so the Connection's own log is not asked for them (everything raised on the nexus is demanded regardless of halts)",
+    "the xid counter state is produced with pox's own xid_generator(start) (2**31 real draws are out of reach); the oracle demands nothing about xid "
+    "values themselves, only that the life-cycle is unaffected by them",
     "state key = reference model + every life-cycle field of each real Connection, its handshake handler, socket flags, event logs and the real registry",
   ]
   only = cfg.only
@@ -1333,6 +1550,25 @@ def run (cfg):
       rep.merge(r)
     rep.extra["overlap_script_pairs"] = len(cases)
     rep.state_count += rep.evaluations - n0
+  # ---- (h)
+  if only in (None, "h"):
+    rets = gen_rets()
+    hs = h_scripts(not cfg.quick)
+    one, two = f_histories(not cfg.quick)
+    cases = [("script", r, a, last, mode) for r in rets for a, last, mode in hs] + [("ops", r, ops) for r in rets for ops in one + two]
+    n0 = rep.evaluations
+    for r in pmap(_h_worker, split(cases, max(1, cfg.workers * 4)), cfg.workers, seed=cfg.seed):
+      rep.merge(r)
+    rep.extra["listener_return_behaviours"] = len(rets); rep.extra["listener_return_cases"] = len(cases)
+    rep.state_count += rep.evaluations - n0
+  # ---- (i)
+  if only in (None, "i"):
+    cases = gen_i_cases(not cfg.quick)
+    n0 = rep.evaluations
+    for r in pmap(_i_worker, split(cases, max(1, cfg.workers * 4)), cfg.workers, seed=cfg.seed):
+      rep.merge(r)
+    rep.extra["prior_state_cases"] = len(cases)
+    rep.state_count += rep.evaluations - n0
   # ---- (c)
   if only in (None, "c"):
     for dpids, root, d in roots:
@@ -1360,6 +1596,13 @@ def replay (cfg, data):
     scripts = tuple(tuple((k, s) for k, s in sc) for sc in data["scripts"])
     w, outs = run_overlap(tuple(data["dpids"]), scripts, tuple(data["order"]))
     return bool(w.bad), "\n".join(w.lines + ["=> %r" % ([k for k, _ in w.bad],)])
+  if data.get("part") == "h":
+    w, outs, bad = run_h_case(data["case"])
+    return bool(bad), "\n".join(w.lines + ["=> %r" % ([k for k, _ in bad],)])
+  if data.get("part") == "i":
+    w, outs, bad = run_i_case(data["case"])
+    return bool(bad), "\n".join(["xid counter re-created at %r, options (miss_send_len, clear_flows_on_connect, request_description) = %r" % (data["case"][1], data["case"][2])]
+                                + w.lines + ["=> %r" % ([k for k, _ in bad],)])
   if data.get("part") == "d":
     w, outs, bad = run_merge(data["n"], tuple(data["order"]), tuple(data["closes"]))
     return bool(bad), "\n".join(w.lines + ["=> %r" % ([k for k, _ in bad],)])
